@@ -111,6 +111,19 @@ Program genC14(Rand& R, int tier)
             else if (c < 40 && G.pickLive(fw) >= 0) G.emitOp(ops, pool);  // shares sub-graphs with earlier roots
             else G.genFunction(i, fw, 12);
         }
+        if (k.range == 'R' && k.label == 'M' && R.chance(60)) {
+            // real terminals that need 7-9 significant digits (k/4 with |k| < 2^22 is exact in the terminal encoding):
+            // the file must carry them at the format's precision (11 significant digits), not at 6
+            int n = R.range(2, 6);
+            for (int i = 0; i < n; i++) {
+                long kk = long(R.below(1u << 22)) - (R.chance(30) ? (1L << 21) : 0);
+                if (R.chance(50)) kk |= 1;          // a fractional part
+                G.emitMinterm(fw, int(R.below(3)), "r" + Gen::num(int(kk)));
+            }
+            int sl = G.freeSlot();
+            G.emit({"coll", Gen::num(sl), Gen::num(fw), R.chance(50) ? "max" : "min", "r0"});
+            G.setLive(sl, fw);
+        }
         // the receiving forest already holds equal and unrelated nodes
         if (R.chance(50)) G.genFunction(20, fr, 10);
         Step w{"write", Gen::num(fw)};
